@@ -911,6 +911,14 @@ bool QXmppTransferManager::handleStanza(const QDomElement &element)
         return false;
     }
 
+    const auto type = element.attribute(u"type"_s);
+    const bool isIbb = QXmppIbbCloseIq::isIbbCloseIq(element) || QXmppIbbDataIq::isIbbDataIq(element) || QXmppIbbOpenIq::isIbbOpenIq(element);
+    if (isIbb ? type != u"set" : type == u"get") {
+        // IBB payloads are only meaningful as 'set' (in particular, responses must never be
+        // answered) and no 'get' requests are defined by the protocols handled here
+        return false;
+    }
+
     // XEP-0047 In-Band Bytestreams
     if (QXmppIbbCloseIq::isIbbCloseIq(element)) {
         QXmppIbbCloseIq ibbCloseIq;
